@@ -346,7 +346,7 @@ def axes_micro(tier):
     }
 
 
-SHRINK_LISTS = ('ops',)
+SHRINK_LISTS = ('ops', 'inject', 'user')
 
 
 def simplify(plan):
@@ -879,7 +879,7 @@ SHAPES['micro'] = {'weight': 80, 'generate': generate_micro, 'corpus': corpus_mi
                    'axes': axes_micro}
 
 # further shapes live in their own modules and register themselves in SHAPES on import
-for _name in ('c03_integrated',):
+for _name in ('c03_integrated', 'c03_live'):
     if importlib.util.find_spec(f'{__package__}.{_name}') is not None:
         importlib.import_module(f'{__package__}.{_name}')
 
